@@ -52,6 +52,16 @@ pub enum Case {
 
 pub struct C02;
 
+/// Half of the receiving contexts are the device the packet is addressed to
+/// (their own SMBus address equals the destination address in byte 0) - the
+/// ordinary situation on a bus; the other half have an unrelated address.
+fn addressed(mut cfg: CtxCfg, bytes: &[u8], own: bool) -> CtxCfg {
+    if own && !bytes.is_empty() {
+        cfg.addr = bytes[0] >> 1;
+    }
+    cfg
+}
+
 pub fn apply_burst(packet: &[u8], bit: u32, pattern: u8) -> Vec<u8> {
     let mut p = packet.to_vec();
     let byte = (bit / 8) as usize;
@@ -106,7 +116,7 @@ impl Prop for C02 {
         "C02"
     }
     fn rule(&self) -> String {
-        "generated: (a) byte strings (random, frame-grammar packets of all types/commands with the PEC wrong w.p. ~0.2, reference-encoded packets with one byte changed), decoded and processed on a random context after a random history: Ok implies last byte = CRC-8 of the rest (independent CRC); (b) reference-encoded valid packets of all kinds (lengths 12-259) XOR a non-zero 8-bit window at any bit offset (may straddle two bytes, may touch the PEC): never Ok, no response bytes, EID unchanged (sound: CRC-8 detects every burst of <= 8 bits); the corruption is applied in place to the receive buffer from which the valid packet was decoded and processed just before; thorough tier enumerates every offset x 255 patterns for 24 packets; (d) valid packets followed by 1-6 extra bytes, decoded and processed as a whole (optionally right after get_length was called on the same bytes): rejected, no response, EID unchanged; (c) twin contexts with identical configuration and history, one additionally processes a bad-PEC input with a pre-filled buffer: Err, buffer unchanged, EIDs unchanged, and every later output of the twin equals the other's on the same follow-up operations. non-trivial = the PEC is the only reason to reject (the input is accepted by the reference decoder once the PEC is repaired); distinct by hash".into()
+        "generated: (a) byte strings (random, frame-grammar packets of all types/commands with the PEC wrong w.p. ~0.2, reference-encoded packets with one byte changed), decoded and processed on a random context after a random history: Ok implies last byte = CRC-8 of the rest (independent CRC); (b) reference-encoded valid packets of all kinds (lengths 12-259) XOR a non-zero 8-bit window at any bit offset (may straddle two bytes, may touch the PEC): never Ok, no response bytes, EID unchanged; half of the receiving contexts are the device the packet is addressed to (own address = destination address), one burst in eight lies in the SMBus header and one pattern in four is a single bit (sound: CRC-8 detects every burst of <= 8 bits); the corruption is applied in place to the receive buffer from which the valid packet was decoded and processed just before; thorough tier enumerates every offset x 255 patterns for 24 packets; (d) valid packets followed by 1-6 extra bytes, decoded and processed as a whole (optionally right after get_length was called on the same bytes): rejected, no response, EID unchanged; (c) twin contexts with identical configuration and history, one additionally processes a bad-PEC input with a pre-filled buffer: Err, buffer unchanged, EIDs unchanged, and every later output of the twin equals the other's on the same follow-up operations. non-trivial = the PEC is the only reason to reject (the input is accepted by the reference decoder once the PEC is repaired); distinct by hash".into()
     }
     fn assumptions(&self) -> Vec<String> {
         vec!["which error is returned is not demanded".into(), "panics are reported by C10, not here".into()]
@@ -127,18 +137,20 @@ impl Prop for C02 {
             b
         });
         prop_oneof![
-            3 => (gen::recv_input(), gen::ctx_cfg(), prop_oneof![2 => Just(Vec::new()).boxed(), 1 => gen::prior_history(3)])
-                .prop_map(|(bytes, cfg, hist)| Case::Any { bytes, cfg, hist }),
-            4 => (prop_oneof![3 => gen::ref_valid_packet(), 1 => gen::actionable_request()], any::<u32>(), 1u8..=255, gen::ctx_cfg())
-                .prop_map(|(packet, pos, pattern, cfg)| {
+            3 => (gen::recv_input(), gen::ctx_cfg(), prop_oneof![2 => Just(Vec::new()).boxed(), 1 => gen::prior_history(3)], any::<bool>())
+                .prop_map(|(bytes, cfg, hist, own)| Case::Any { cfg: addressed(cfg, &bytes, own), bytes, hist }),
+            4 => (prop_oneof![3 => gen::ref_valid_packet(), 1 => gen::actionable_request()], any::<u32>(), prop_oneof![3 => 1u8..=255, 1 => (0u32..8).prop_map(|k| 1u8 << k)], gen::ctx_cfg(), any::<bool>(), 0u8..8)
+                .prop_map(|(packet, pos, pattern, cfg, own, early)| {
                     let nbits = (packet.len() as u64) * 8 - 7;
+                    // one burst in eight hits the SMBus header (first four bytes)
+                    let nbits = if early == 0 { nbits.min(32) } else { nbits };
                     let bit = ((pos as u64 * nbits) >> 32) as u32;
-                    Case::Burst { packet, bit, pattern, cfg }
+                    Case::Burst { cfg: addressed(cfg, &packet, own), packet, bit, pattern }
                 }),
-            2 => (prop_oneof![3 => gen::ref_valid_packet(), 2 => gen::actionable_request()], gen::bytes_between(1, 6), any::<bool>(), gen::ctx_cfg())
-                .prop_map(|(packet, extra, probe_first, cfg)| Case::Trailing { packet, extra, probe_first, cfg }),
+            2 => (prop_oneof![3 => gen::ref_valid_packet(), 2 => gen::actionable_request()], gen::bytes_between(1, 6), any::<bool>(), gen::ctx_cfg(), any::<bool>())
+                .prop_map(|(packet, extra, probe_first, cfg, own)| Case::Trailing { cfg: addressed(cfg, &packet, own), packet, extra, probe_first }),
             3 => (gen::ctx_cfg(), gen::prior_history(4), bad_input, 64u16..=300, any::<u8>(), proptest::collection::vec(gen::history_op(), 1..=5))
-                .prop_map(|(cfg, hist, bad, cap, fill, followups)| Case::Twin { cfg, hist, bad, cap, fill, followups }),
+                .prop_map(|(cfg, hist, bad, cap, fill, followups)| Case::Twin { cfg: addressed(cfg, &bad, fill & 1 == 0), hist, bad, cap, fill, followups }),
         ]
         .boxed()
     }
@@ -167,7 +179,10 @@ impl Prop for C02 {
                     if idx % nshards != shard {
                         continue;
                     }
-                    f(Case::Burst { packet: p.clone(), bit, pattern, cfg: cfg.clone() });
+                    f(Case::Burst { packet: p.clone(), bit, pattern, cfg: addressed(cfg.clone(), &p, true) });
+                    if bit < 32 {
+                        f(Case::Burst { packet: p.clone(), bit, pattern, cfg: cfg.clone() });
+                    }
                 }
             }
         }
